@@ -378,6 +378,57 @@ def check_rawout(run, case):
                     input_class='rawout')
 
 
+LINEAGE_TEXTS = ['$.a', '$', '$.b.distinct()', '[$.a, $.b]',
+                 '$.a.where($ > 1)', 'dict(x => $.a)', '$.b.first()']
+RAW_OPTS = {'yaql.convertInputData': False, 'yaql.convertOutputData': False}
+
+
+def check_lineage(run, case):
+    """an engine, its copies and its per-call-option forms parse the same
+    texts in some order; whatever a statement is parsed by decides how it is
+    evaluated - the default engine converts, the raw forms do not"""
+    text = LINEAGE_TEXTS[case['text'] % len(LINEAGE_TEXTS)]
+    base = common.engine(cache=False)
+    forms = {'default': lambda: base(text),
+             'copy-raw': lambda: base.copy(dict(RAW_OPTS))(text),
+             'percall-raw': lambda: base(text, dict(RAW_OPTS)),
+             'copy-default': lambda: base.copy({})(text)}
+    bad = None
+    for form in case['order']:
+        data = {'a': [3, 1, 2], 'b': [[1, 2], [1, 2], [3]]}
+        host_ids = set(common.mutable_containers(data))
+        try:
+            out = ('ok', forms[form]().evaluate(data=data,
+                                                context=common.child()))
+        except Exception as e:   # noqa
+            out = ('exc', type(e).__name__)
+        if 'raw' in form:
+            continue
+        try:
+            exp = ('ok', common.snapshot(common.engine(cache=False)(
+                text).evaluate(data={'a': [3, 1, 2], 'b': [[1, 2], [1, 2],
+                                                            [3]]},
+                               context=common.child())))
+        except Exception as e:   # noqa
+            exp = ('exc', type(e).__name__)
+        got = ('ok', common.snapshot(out[1])) if out[0] == 'ok' else out
+        if got != exp:
+            bad = ('evaluation-depends-on-history',
+                   '%s parsed by the %s form after %r: %r; a new default '
+                   'engine: %r' % (text, form, case['order'], got, exp))
+            break
+        if out[0] == 'ok':
+            shared = shared_containers(out[1], host_ids)
+            if shared:
+                bad = ('result-aliases-host-data',
+                       '%s parsed by the %s form after %r returned the '
+                       'host\'s own %s' % (text, form, case['order'], shared))
+                break
+    run.case(case, len(case['order']) >= 2, cls=['engine-lineage'])
+    if bad:
+        run.violate(bad[0], case, bad[1], input_class='lineage')
+
+
 # host collections that are not the built-in types: mappings, sequences and
 # sets defined through the abstract base classes or the collections module
 
@@ -431,6 +482,9 @@ def _host_collections():
         'UserList': lambda: C.UserList([[1, 2], {'x': [3]}]),
         'deque': lambda: C.deque([[1, 2], {'x': [3]}]),
         'MutableSequence': lambda: MySeq([[1, 2], {'x': [3]}]),
+        # mutable buffers are mutable sequences too
+        'bytearray': lambda: bytearray(b'abc'),
+        'array': lambda: __import__('array').array('i', [1, 2, 3]),
     }
 
 
@@ -762,7 +816,7 @@ def run_history(run, case):
 
 REPLAY = {'sweep': check_sweep, 'history': run_history,
           'rawout': check_rawout, 'hostcoll': check_hostcoll,
-          'eval-history': check_eval_history}
+          'eval-history': check_eval_history, 'lineage': check_lineage}
 
 
 def make_machine(run):
@@ -845,6 +899,12 @@ def run(run):
             for via in ('variable', 'raw-data'):
                 check_hostcoll(run, {'kind': 'hostcoll', 'type': t,
                                      'text': i, 'via': via})
+    import itertools
+    for ti in range(len(LINEAGE_TEXTS)):
+        for order in itertools.permutations(
+                ['default', 'copy-raw', 'percall-raw', 'copy-default'], 2):
+            check_lineage(run, {'kind': 'lineage', 'text': ti,
+                                'order': list(order) + ['default']})
     steps = st.lists(st.tuples(st.sampled_from(['eval', 'eval', 'mutate']),
                                st.integers(0, 7)).map(list), min_size=2,
                      max_size=8)
